@@ -185,7 +185,7 @@ Theorem C18_mixed_precision_add_sub : forall dm o ta x tb y,
   o = Add \/ o = Sub -> numeric ta -> numeric tb ->
   let t := widest (to_float ta) tb in
   let r := match o with Add => x + y | _ => x - y end in
-  in_dom t r = true ->
+  in_dom t r = true -> sng_edge o t x y = false ->
   v_binop dm o (VNum ta x) (VNum tb y) = Ok (VNum t r) /\ (ta = TDbl \/ tb = TDbl -> t = TDbl).
 Proof. exact v_addsub_widest. Qed.
 Print Assumptions C18_mixed_precision_add_sub.
@@ -209,6 +209,16 @@ Proof.
   - exact (C18_parse_eval ty rt_unop (rt_binop dm) rt_unop_no_idx (rt_binop_no_idx dm) alt (ety e)).
 Qed.
 Print Assumptions C18_typed_parse_eval.
+
+(* expressions over variables: every occurrence of a variable contributes the value the store has when the
+   evaluation starts - the operator functions of the model are functions of operand VALUES, so an operand is
+   never changed by evaluating the expression (tied to /repo by the `var` correspondence cases, which read
+   every variable back after the evaluation and evaluate twice) *)
+Theorem C18_variables : forall dm alt (s : store) (e : xexpr),
+  sy_eval val v_unop (v_binop dm) gen_tables (pr val gen_utok gen_bspell alt (inst s e))
+  = Shunting.eval val v_unop (v_binop dm) (inst s e).
+Proof. intros dm alt s e. exact (proj1 (C18_typed_parse_eval dm alt (inst s e))). Qed.
+Print Assumptions C18_variables.
 
 (* ---- non-vacuity: the hypotheses are satisfiable and the statements say something on real shapes.
    Domain: operator trees in prefix encoding (tr_unop / tr_binop record the tree); 233 = +, 235 = *,
@@ -242,7 +252,11 @@ Example C18_nonvacuous :
   /\ v_enc (v_parse [tN 1 16777216; tP 231; tN 2 16777217]) = [0; 0; 0; 0]
   /\ v_enc (v_parse [tN 0 3; tP 230; tN 2 40000]) = [0; 0; 0; 0]
   /\ v_enc (v_parse [tN 0 1; tP 233; tN 2 16777217]) = [0; 0; 2; 16777218]
-  /\ v_enc (v_parse [tN 2 40000; tP 238; tN 0 1]) = [1; 6].
+  /\ v_enc (v_parse [tN 2 40000; tP 238; tN 0 1]) = [1; 6]
+  (* P# * 2 + P# with P# = 3 is the double 9 *)
+  /\ v_enc (v_parse (v_pr false false false
+        (inst (fun _ => VNum TDbl 3) (XBin Add (XBin Mul (XVar 0) (XLit (VNum TInt 2))) (XVar 0)))))
+     = [0; 0; 2; 9].
 Proof.
   cbv zeta. repeat split; try (vm_compute; reflexivity).
   - exact tr_unop_no_idx.
